@@ -281,6 +281,8 @@ class Executor(object):
                 f = f.fget
             if isinstance(f, types.MethodType):
                 f = f.__func__
+            if type(f).__name__ == "hybridmethod" and hasattr(f, "func"):
+                f = f.func           # rpyc.lib.hybridmethod: a descriptor around the plain function (receiver: instance or class)
             f = getattr(f, "__wrapped__", f)
             funcobj = f
             if not hasattr(f, "__code__"):
